@@ -201,6 +201,17 @@ def _cap_and_policy(prog: Program, res: Result, lb: int):
                 res.violation("R02.2", f"cap-first-over|{detail[:80]}", prog.loc(fi, s), q,
                               f"the right end of the capped search is not the last field below max_boreholes: {detail}")
             continue
+        stale = _cached_cap_index(prog, fi, s.value)
+        if stale is not None:
+            attr, writers, unsynced = stale
+            ok = not unsynced
+            res.ob("R02.2", f"right end under the cap comes from the cached {attr}; every assignment of self.coordinates_domain recomputes it", ok, prog.loc(fi, s))
+            if not ok:
+                f2, n2 = unsynced[0]
+                res.violation("R02.2", f"cap-cached-stale|{attr}|{f2.qualname}", prog.loc(f2, n2), q,
+                              f"the capped right end of search() is read from {attr}, computed in {', '.join(w.qualname.split('.')[-2] + '.' + w.name for w in writers)} from the domain of that moment, "
+                              f"but {f2.qualname.split('.')[-2]}.{f2.name} replaces self.coordinates_domain without recomputing it: the cap index is stale, fields above max_boreholes become selectable")
+            continue
         comp, how = _filtered_index_comp(fi.node, s.value)
         ok = False
         detail = "shape not understood"
@@ -397,6 +408,43 @@ def _first_over_minus_one(fn, value: ast.expr):
     if dtxt != f"len({dname})":
         return False, f"when no field reaches the cap the default '{dtxt}' - 1 is not the last index (len({dname}) - 1): the largest candidate is silently dropped"
     return True, ast.unparse(t)
+
+
+def _cached_cap_index(prog: Program, fi, expr: ast.expr):
+    """the capped right end is read from an attribute self.<a> (possibly clamped with min(.., len(domain) - 1)) that some
+    method computes from self.coordinates_domain / its constructor argument.  -> (attr, [writer functions],
+    [(function, stmt) that assign self.coordinates_domain without assigning self.<a> afterwards]) or None"""
+    attrs = [attr_chain(n) for n in ast.walk(expr) if isinstance(n, ast.Attribute) and (attr_chain(n) or "").startswith("self.")
+             and attr_chain(n) not in ("self.coordinates_domain", "self.sim_params.max_boreholes", "self.sim_params")]
+    attrs = [a for a in attrs if a and a.count(".") == 1]
+    if len(set(attrs)) != 1:
+        return None
+    attr = attrs[0]
+    writers, dom_writers = [], []
+    for q2, f2 in prog.funcs.items():
+        if not q2.startswith(SR + "."):
+            continue
+        for n in walk_no_nested(f2.node):
+            if isinstance(n, ast.Assign):
+                for t in n.targets:
+                    c = attr_chain(t)
+                    if c == attr and not (isinstance(n.value, ast.Constant) and n.value.value is None):
+                        writers.append((f2, n))
+                    if c == "self.coordinates_domain":
+                        dom_writers.append((f2, n))
+    if not writers:
+        return None
+    unsynced = []
+    for f2, n in dom_writers:
+        later = [w for wf, w in writers if wf is f2 and w.lineno > n.lineno]
+        same_fn_before = [w for wf, w in writers if wf is f2]
+        if not later and not (same_fn_before and f2.name == "__init__" and f2 is writers[0][0]):
+            unsynced.append((f2, n))
+    wf_ = []
+    for w in writers:
+        if not any(w[0] is x for x in wf_):
+            wf_.append(w[0])
+    return attr, sorted(wf_, key=lambda f: f.qualname), unsynced
 
 
 def _cap_filter_ok(fn, comp) -> tuple:
@@ -666,6 +714,11 @@ def _guarded_nonempty(fn, name: str, use: ast.AST) -> bool:
 
 
 VARIANTS = [
+    Variant("cap index cached in the base constructor, stale after subclasses swap the domain (seeded C02_d)", "break",
+            [(SR, "        self.max_iter = max_iter\n        self.disp = disp\n\n        b = borehole_spacing(borehole, coordinates)",
+              "        self.max_iter = max_iter\n        self.disp = disp\n\n        self.last_allowed_idx = None\n        if sim_params.max_boreholes is not None:\n            allowed = [idx for idx, x in enumerate(coordinates_domain) if len(x) < sim_params.max_boreholes]\n            if not allowed:\n                raise ValueError(\"Search failed: every field in the domain has at least max_boreholes boreholes.\")\n            self.last_allowed_idx = allowed[-1]\n\n        b = borehole_spacing(borehole, coordinates)"),
+             (SR, "            num_coordinates_in_each = [len(x) for x in self.coordinates_domain]\n            allowed = [idx for idx, x in enumerate(num_coordinates_in_each) if x < self.sim_params.max_boreholes]\n            if not allowed:\n                raise ValueError(\"Search failed: every field in the domain has at least max_boreholes boreholes.\")\n            x_r_idx = allowed[-1]",
+              "            x_r_idx = min(self.last_allowed_idx, len(self.coordinates_domain) - 1)")], "R02.2"),
     Variant("published height scaled by 1.01", "break", [(GHX, "        self.bhe.b.H = returned_height\n", "        self.bhe.b.H = returned_height * 1.01\n")], "R02.1"),
     Variant("solve_root: both-negative clamps beyond the lower bound", "break", [(UT, "        x = lower\n    elif kg_plus_sign == 1", "        x = lower / 2.0\n    elif kg_plus_sign == 1")], "R02.1"),
     Variant("cap filter selects fields ABOVE the cap", "break",
